@@ -196,7 +196,8 @@ def build():
                   'implies(not reuse and is_none(dbname), not is_none(user_schema) and some(user_schema) == req_usp)',
                   'implies(not reuse and not is_none(dbname), some(dbname) in DBS and DBS[some(dbname)].user_schema == unpk(req_usp))'],
         ensures=['not is_none(LAST_STATE)', 'corr(some(LAST_STATE), result[1])'],     # K re-established for the returned pickled state
-        raises={'CompileError': {}, 'PickleError': {}})
+        # a statement that fails leaves the state the worker keeps for REUSE_LAST_STATE_MARKER alone (the server keeps believing in the previous one)
+        raises={'CompileError': dict(ensures=['LAST_STATE == old(LAST_STATE)']), 'PickleError': dict(ensures=['LAST_STATE == old(LAST_STATE)'])})
 
     # ------------------------------------------------------------------ server: the RPC
     # J is stated for one arbitrary database d (a ghost constant of each pool entry point): equivalent to "for all d", and keeps every VC ground
@@ -395,6 +396,47 @@ def build_mt(w):
         ensures=['is_prefix(old(self._invalidated_clients), self._invalidated_clients)', 'len(self._invalidated_clients) <= old(len(self._invalidated_clients)) + 1',
                  'forall(old(len(self._invalidated_clients)), len(self._invalidated_clients), lambda j: self._invalidated_clients[j] in self._cache)',
                  'heap_same_except("MTW._invalidated_clients", self)'])
+
+    # ---- multi-tenant worker process: __sync__ is all-or-nothing for the tenant (FailedStateSync => the tenant's state is what it was), drops exactly the
+    # invalidated tenants, touches no other tenant, installs the transmitted global schema / instance config.  (The per-database clause "every transmitted
+    # part of database d0 is installed" was tried with a ghost database and ground invariants: z3 left it unknown after 80 s per path -- it is exercised by
+    # scenario_mt.py instead, labelled bounded.)
+    MTWK = 'edb/server/compiler_pool/multitenant_worker.py'
+    w.opaque_exprs['debug.flags.server'] = 'bool'
+    w.rec('CS', [('dbs', 'Map[Obj,DS]'), ('global_schema', 'Obj'), ('instance_config', 'Obj')], MTWK, 'ClientSchema')
+    GONE = lambda c: 'exists(0, len(invalidation), lambda j: invalidation[j] == %s)' % c
+    OTHERS_MT = ('forall(Obj, lambda c: implies(c != client_id, (c in clients) == ((c in old(clients)) and not %s) and implies(c in clients, clients[c] == old(clients)[c])))' % GONE('c'))
+    HAD = '(client_id in old(clients) and not %s)' % GONE('client_id')      # the tenant was held (and is not dropped by this very call)
+    OLDC = 'old(clients)[client_id]'
+    PSW = 'some(pickled_schema)'
+    def part_mt(newv, present, oldv): return '%s == (unpk(some(%s)) if %s else %s)' % (newv, present.replace('not is_none(', '').rstrip(')') if False else present[len('not is_none('):-1], present, oldv)
+    w.contract(MTWK, '__sync__', params={'client_id': 'Obj', 'pickled_schema': 'Opt[PSch]', 'invalidation': 'Seq[Obj]'}, state={'clients': 'Map[Obj,CS]'}, ghost={'d0': 'Obj'}, returns='none',
+        modifies=['clients'],
+        requires=['implies(not is_none(pickled_schema), is_none(%s.dbs) or len(some(%s.dbs)) >= 0)' % (PSW, PSW)],
+        ensures=[OTHERS_MT, 'client_id in clients',
+                 # global schema / instance config: what was transmitted, else what was held
+                 'implies(not is_none(pickled_schema) and not is_none(%s.global_schema), clients[client_id].global_schema == unpk(some(%s.global_schema)))' % (PSW, PSW),
+                 'implies(%s and (is_none(pickled_schema) or is_none(%s.global_schema)), clients[client_id].global_schema == %s.global_schema)' % (HAD, PSW, OLDC),
+                 'implies(not is_none(pickled_schema) and not is_none(%s.instance_config), clients[client_id].instance_config == unpk(some(%s.instance_config)))' % (PSW, PSW),
+                 'implies(%s and (is_none(pickled_schema) or is_none(%s.instance_config)), clients[client_id].instance_config == %s.instance_config)' % (HAD, PSW, OLDC),
+                 ],
+        raises={'FailedStateSync': dict(ensures=[OTHERS_MT, 'implies(%s, client_id in clients and clients[client_id] == %s)' % (HAD, OLDC), 'implies(not %s, not (client_id in clients))' % HAD])},
+        abstract={'if debug.flags.server:': dict(),       # debug printing (no effect on the state)
+                  'dbs = {dbname: state.DatabaseState(dbname, None if pickled_state.user_schema is None else pickle.loads(pickled_state.user_schema), pickle.loads(pickled_state.reflection_cache), pickle.loads(pickled_state.database_config)) for dbname, pickled_state in pickled_schema.dbs.items()}':
+                  # (assumed) a dict comprehension over a map: same keys, every value built from its own item (stated for the arbitrary database d0); unpickling may fail
+                  dict(assigns={'dbs': 'Map[Obj,DS]'}, raises=['PickleError', 'AttributeError'],
+                       ensures=['not is_none(%s.dbs)' % PSW, '(d0 in dbs) == (d0 in some(%s.dbs))' % PSW,
+                                'implies(d0 in dbs, implies(not is_none(some(%s.dbs)[d0].user_schema), dbs[d0].user_schema == unpk(some(some(%s.dbs)[d0].user_schema))) '
+                                'and dbs[d0].reflection_cache == unpk(some(some(%s.dbs)[d0].reflection_cache)) and dbs[d0].database_config == unpk(some(some(%s.dbs)[d0].database_config)))' % ((PSW,) * 4)])},
+        loops={0: dict(fingerprint='for cid in invalidation', index='i0', invariant=[
+                   'forall(Obj, lambda c: (c in clients) == ((c in old(clients)) and not exists(0, i0, lambda j: invalidation[j] == c)) and implies(c in clients, clients[c] == old(clients)[c]))']),
+               1: dict(fingerprint='for (dbname, pickled_state) in pickled_schema.dbs.items()', done='D1', invariant=[
+                   'implies(d0 in D1, d0 in dbs '
+                   'and implies(not is_none(some(%s.dbs)[d0].user_schema), dbs[d0].user_schema == unpk(some(some(%s.dbs)[d0].user_schema))) '
+                   'and implies(not is_none(some(%s.dbs)[d0].reflection_cache), dbs[d0].reflection_cache == unpk(some(some(%s.dbs)[d0].reflection_cache))) '
+                   'and implies(not is_none(some(%s.dbs)[d0].database_config), dbs[d0].database_config == unpk(some(some(%s.dbs)[d0].database_config))))' % ((PSW,) * 6)]),
+               2: dict(fingerprint='for dbname in pickled_schema.dropped_dbs', index='i2', invariant=['True'])},
+        hints={'kwdict_vars': ['updates', 'db_updates'], 'var_types': {'client_schema': 'Opt[CS]'}})
 
 def configure(vf):
     pass
